@@ -18,9 +18,86 @@ type Case struct {
 	Framing        string   `json:"framing,omitempty"` // balancer only: cl | chunked | close | none
 	// Interim (balancer only): the backend sends this interim response (100, 102 or 103) before its final one; 0 = none
 	Interim int `json:"interim,omitempty"`
+	// Abort (balancer only): the backend breaks off after its response head, before the end of its body
+	// ("" = it does not): cl-short | cl-reset | chunked-reset | close-reset | chunked-cut (see abortScript)
+	Abort string `json:"abort,omitempty"`
+	// AbortSent: chunked-cut / cl-short: number of body bytes the backend sends before it breaks off
+	AbortSent int `json:"abort_sent,omitempty"`
+}
+
+var abortKinds = []string{"cl-short", "cl-short", "cl-reset", "chunked-reset", "close-reset", "chunked-cut", "chunked-cut"}
+
+// abortScript renders the backend side of an aborted balancer exchange and returns the body bytes the
+// backend really sends and a description of the break.
+//
+//	cl-short       Content-Length announces 100 bytes more than the backend sends (AbortSent bytes, in the drawn writes), then it closes
+//	cl-reset       Content-Length: n, then the connection is reset before any body byte
+//	chunked-reset  Transfer-Encoding: chunked, reset before the first chunk
+//	close-reset    Connection: close (body delimited by the end of the connection), reset before any body byte
+//	chunked-cut    Transfer-Encoding: chunked, the chunks of the first AbortSent bytes (one chunk per drawn write), then
+//	               the backend closes the connection without the terminating chunk
+func (c *Case) abortScript(body []byte) (s *lab.RespScript, sent []byte, what string) {
+	s = c.Script(body)
+	s.Interim, s.InterimCode = false, 0
+	switch c.Abort {
+	case "cl-short":
+		sent = body[:c.AbortSent]
+		s.Framing, s.Body, s.BodyLen, s.Parts, s.Fault = "cl", sent, len(sent), cutParts(c.Prog.Parts, len(sent)), "short-body"
+		what = fmt.Sprintf("Content-Length %d announced, connection closed after %d body bytes", len(sent)+100, len(sent))
+	case "cl-reset":
+		s.Framing, s.Parts, s.Fault = "cl", nil, "reset-after-headers"
+		what = fmt.Sprintf("Content-Length %d announced, connection reset before the first body byte", len(body))
+	case "chunked-reset":
+		s.Framing, s.Parts, s.Fault = "chunked", nil, "reset-after-headers"
+		what = "chunked, connection reset before the first chunk"
+	case "close-reset":
+		s.Framing, s.Parts, s.Fault = "close", nil, "reset-after-headers"
+		what = "close-delimited, connection reset before the first body byte"
+	case "chunked-cut":
+		sent = body[:c.AbortSent]
+		var wire []byte
+		off := 0
+		for _, n := range cutParts(c.Prog.Parts, len(sent)) {
+			wire = append(wire, fmt.Sprintf("%x\r\n", n)...)
+			wire = append(wire, sent[off:off+n]...)
+			wire = append(wire, "\r\n"...)
+			off += n
+		}
+		// byte-exact: the framing header is written by hand, the body is the chunk-encoded prefix, and the
+		// backend closes the connection where the next chunk (or the terminating one) would start
+		s.Header = append(s.Header, lab.KV{K: "Transfer-Encoding", V: "chunked"})
+		s.Framing, s.Body, s.BodyLen, s.Parts, s.Fault = "none", wire, len(wire), nil, "short-body"
+		what = fmt.Sprintf("chunked, connection closed after the chunks of the first %d body bytes, no terminating chunk", len(sent))
+	}
+	return
+}
+
+// cutParts cuts a write partition down to its first n bytes.
+func cutParts(parts []int, n int) []int {
+	var out []int
+	for _, p := range parts {
+		if n <= 0 {
+			break
+		}
+		if p > n {
+			p = n
+		}
+		out = append(out, p)
+		n -= p
+	}
+	if n > 0 {
+		out = append(out, n)
+	}
+	return out
 }
 
 func (c *Case) describe() string {
+	if c.Abort != "" {
+		_, _, what := c.abortScript(c.Prog.Body.Bytes())
+		return fmt.Sprintf("terminal=%s chain before=%v [gzip level=%d min_size=%d content_types=%q (%s)] after=%v\nrequest GET / Accept-Encoding=%q\nbackend: status=%d Content-Type=%q Content-Encoding=%q body of %d bytes (compressible=%v, writes %v) that BREAKS OFF: %s",
+			c.Terminal, c.Chain.Before, c.Chain.Gzip.Level, c.Chain.Gzip.MinSize, c.Chain.Gzip.Types, c.Chain.Gzip.Style, c.Chain.After, c.AcceptEncoding,
+			c.Prog.Status, c.Prog.ContentType, c.Prog.Body.Encoding, c.Prog.Body.Len, c.Prog.Body.Compressible, c.Prog.Parts, what)
+	}
 	return fmt.Sprintf("terminal=%s chain before=%v [gzip level=%d min_size=%d content_types=%q (%s)] after=%v\nrequest GET / Accept-Encoding=%q\nbackend: status=%d (0 = implicit WriteHeader) Content-Type=%q Content-Encoding=%q declares Content-Length=%v framing=%s body=%d bytes (compressible=%v) in writes %v",
 		c.Terminal, c.Chain.Before, c.Chain.Gzip.Level, c.Chain.Gzip.MinSize, c.Chain.Gzip.Types, c.Chain.Gzip.Style, c.Chain.After, c.AcceptEncoding,
 		c.Prog.Status, c.Prog.ContentType, c.Prog.Body.Encoding, c.declaresCL(), c.Framing, c.Prog.Body.Len, c.Prog.Body.Compressible, c.Prog.Parts)
@@ -127,6 +204,19 @@ func (c *Case) Run(l *Labs, deadline time.Duration) Verdict {
 			b = nil
 		}
 		got, err = l.Stub.Run(c.request(), &p, b, deadline)
+	} else if c.Abort != "" {
+		script, sent, what := c.abortScript(body)
+		got, err = l.Proxy.Run(c.request(), script, deadline)
+		if err != nil && strings.HasPrefix(err.Error(), "harness:") {
+			return Verdict{Viol: err.Error()}
+		}
+		f := c.Facts(body)
+		v := Verdict{Nontrivial: f.Failing() <= 1, Labels: []string{"backend-aborted-mid-response", "abort-" + c.Abort}}
+		if got != nil && got.Status == f.Status && got.BodyErr != "" {
+			v.Labels = append(v.Labels, "abort-visible-to-client")
+		}
+		v.Viol = JudgeAborted(f.Status, c.Prog.Body.Encoding, sent, what, got, err)
+		return v
 	} else {
 		got, err = l.Proxy.Run(c.request(), c.Script(body), deadline)
 	}
@@ -338,6 +428,23 @@ func genExchange(t *rapid.T, ch Chain, terminal string) Case {
 		}
 		if c.bodiless() {
 			c.Framing = "none"
+		}
+		// one exchange in eight with a body: the backend dies after its response head, before the end of its body
+		if !c.bodiless() && n > 0 && rapid.IntRange(0, 7).Draw(t, "backend-dies") == 7 {
+			c.Abort = rapid.SampledFrom(abortKinds).Draw(t, "abort")
+			c.Interim = 0
+			switch c.Abort {
+			case "cl-short":
+				c.Framing, c.AbortSent = "cl", rapid.SampledFrom([]int{n, n, n - 1, n / 2, 0}).Draw(t, "abort-sent")
+			case "chunked-cut":
+				c.Framing, c.AbortSent = "chunked", rapid.SampledFrom([]int{n, n, n - 1, n / 2, 1}).Draw(t, "abort-sent")
+			case "cl-reset":
+				c.Framing = "cl"
+			case "chunked-reset":
+				c.Framing = "chunked"
+			case "close-reset":
+				c.Framing = "close"
+			}
 		}
 	}
 	if rapid.IntRange(0, 3).Draw(t, "extra") == 3 {
